@@ -1,2 +1,44 @@
-(* Props/C20.v *)
-From BC Require Import Store.Engine.
+(* Props/C20.v — C20: a failed disk operation is reported and leaves the store consistent.
+   The fault-aware engine model (C20_fault_consistent in DESIGN.md section 8) is not built yet; the
+   property is decided by exhaustive one-fault sweeps on the real store (`bin/check C20`, level
+   fault_enumeration).  Proved here: the discipline of file ids that the repair of the writer relies
+   on, in the fault-free model. *)
+From BC Require Import Store.Engine Store.Log Store.Cons Store.Inv Store.Refine Store.Merge Store.Theorems.
+Open Scope N_scope.
+
+(* 1. An id is consumed before its file is created: new_active_datafile always uses an id above the
+      highest id this writer ever handed out, and creation under an existing name is an error, never
+      an overwrite. *)
+Theorem C20_new_active_fresh : forall s s' t, new_active s = ROk (s', t) ->
+  s_active s' = s_last s + 1 /\ s_last s' = s_last s + 1 /\ s_stale s' = false /\
+  dir_get (s_dir s) (s_last s + 1) = None /\ t = [SCreate (FData (s_last s + 1))].
+Proof.
+  intros s s' t. unfold new_active. destruct (dir_get (s_dir s) (s_last s + 1)) eqn:E; [discriminate|].
+  intros H. inversion H; subst. cbn. auto.
+Qed.
+Print Assumptions C20_new_active_fresh.
+
+(* 2. In every reachable state the writer is not stale, its file exists, is the newest file of the
+      directory and has no hint file: an append can never land in a file that a merge produced or
+      that does not exist. *)
+Theorem C20_writer_file_valid : forall c s, reachable c s ->
+  s_stale s = false /\ s_active s = s_last s /\ ids_le (s_dir s) (s_last s) /\
+  exists fa, dir_get (s_dir s) (s_active s) = Some fa /\ d_hint fa = None.
+Proof. intros c s Hr. destruct (reachable_inv c s Hr) as (_ & Hle & _ & Hst & Ha & Hfa & _). auto. Qed.
+Print Assumptions C20_writer_file_valid.
+
+(* 3. A stale writer switches to a fresh file before it appends anything. *)
+Theorem C20_stale_writer_rolls_first : forall c s k v s' l t, s_stale s = true ->
+  write c s k v = ROk (s', l, t) -> exists t', t = SCreate (FData (s_last s + 1)) :: t' /\ l_fid l = s_last s + 1.
+Proof.
+  intros c s k v s' l t Hst. unfold write. rewrite Hst.
+  destruct (new_active s) as [[s1 t1]| |] eqn:E; try discriminate.
+  destruct (C20_new_active_fresh s s1 t1 E) as (Ha & Hl & _ & _ & ->).
+  destruct (append_data (s_dir s1) (s_active s1) _) as [[d2 pos]|]; [|discriminate].
+  destruct (c_max c <? _).
+  - match goal with |- context [match new_active ?x with _ => _ end] => destruct (new_active x) as [[s3 t3]| |] end; try discriminate.
+    intros H. injection H as Hs' Hl' Ht'. subst t l.
+    cbn [app l_fid]. rewrite Ha. eauto.
+  - intros H. injection H as Hs' Hl' Ht'. subst t l. cbn [app l_fid]. rewrite Ha. eauto.
+Qed.
+Print Assumptions C20_stale_writer_rolls_first.
